@@ -350,6 +350,14 @@ func (gb *gcpBalancer) newSubConn() {
 	gb.mu.Lock()
 	defer gb.mu.Unlock()
 
+	// The caller checked the pool size without holding the lock, another pick
+	// may have grown the pool since then.
+	if gb.cfg != nil {
+		if maxSize := gb.cfg.GetChannelPool().GetMaxSize(); maxSize != 0 && len(gb.scRefs) >= int(maxSize) {
+			return
+		}
+	}
+
 	// there are chances the newly created subconns are still connecting,
 	// we can wait on those new subconns.
 	for _, scState := range gb.scStates {
